@@ -325,8 +325,7 @@ func (c *Conn) CloseWrite() error {
 	return nil
 }
 
-// Sent and Rcvd report the bytes written by / delivered to this endpoint.
-func (c *Conn) Sent() uint64 { c.n.mu.Lock(); defer c.n.mu.Unlock(); return c.sent }
+// Rcvd reports the bytes delivered to this endpoint (Sent is in cut.go).
 func (c *Conn) Rcvd() uint64 { c.n.mu.Lock(); defer c.n.mu.Unlock(); return c.rcvd }
 
 func (c *Conn) SetDeadline(t time.Time) error {
